@@ -27,51 +27,47 @@ def FileEvent.ofName : String → FileEvent
   | "Added" => .added | "Change" => .change | "Copy" => .copy
   | "Rename" => .rename | "Removed" => .removed | _ => .noEvent
 
-/-- `remove_surrounding_quotes`: `&path[1..path.len() - 1]` panics for the one-char path `"`. -/
-def removeSurroundingQuotes (p : Str) : Except String Str :=
-  if p.head? = some '"' ∧ p.getLast? = some '"' then
-    if p.length < 2 then .error "slice index starts at 1 but ends at 0 (remove_surrounding_quotes)"
-    else .ok ((p.drop 1).dropLast)
-  else .ok p
+/-- `remove_surrounding_quotes` -/
+def removeSurroundingQuotes (p : Str) : Str :=
+  if 2 ≤ p.length ∧ p.head? = some '"' ∧ p.getLast? = some '"' then (p.drop 1).dropLast else p
 
 /-- `str::split('\t').next()` -/
 def beforeTab (p : Str) : Str := p.takeWhile (· ≠ '\t')
 
 /-- `_parse_file_path` -/
-def parseFilePath (path : Str) (gitDiffName : Bool) : Except String Str := do
-  let p ← removeSurroundingQuotes path
+def parseFilePath (path : Str) (gitDiffName : Bool) : Str :=
+  let p := removeSurroundingQuotes path
   let p2 := if p.getLast? = some '\t' then p.dropLast else p
-  if p2 = Markers.devNull then pure Markers.devNull
-  else if gitDiffName ∧ startsWithAny p2 Markers.diffPrefixes then pure (p2.drop 2)
-  else if gitDiffName then pure p2
-  else pure (beforeTab p2)
+  if p2 = Markers.devNull then Markers.devNull
+  else if gitDiffName ∧ startsWithAny p2 Markers.diffPrefixes then p2.drop 2
+  else if gitDiffName then p2
+  else beforeTab p2
 
 /-- `parse_diff_header_line` over the generated (prefix, offset, event) table. The Rust code
 slices at a fixed byte offset; the prefixes are ASCII, so byte offset = char offset. -/
-def parseDiffHeaderLine (line : Str) (gitDiffName : Bool) : Except String (Str × FileEvent) :=
+def parseDiffHeaderLine (line : Str) (gitDiffName : Bool) : Str × FileEvent :=
   match Markers.parseDiffHeaderLine.find? (fun (p, _, _) => startsWith line p) with
-  | none => .ok ([], .noEvent)
+  | none => ([], .noEvent)
   | some (_, off, ev) =>
     let rest := line.drop off
     match FileEvent.ofName ev with
-    | .change => do let f ← parseFilePath rest gitDiffName; pure (f, .change)
-    | e => .ok (rest, e)
+    | .change => (parseFilePath rest gitDiffName, .change)
+    | e => (rest, e)
 
 /-- `get_repeated_file_path_from_diff_line`. `gs`: the extended grapheme clusters of the text
-after `diff --git ` (segmentation is the implementation's). `line[midpoint]` panics when there
-are no clusters. -/
-def repeatedFilePath (line : Str) (gs : List Str) : Except String (Option Str) :=
+after `diff --git ` (segmentation is the implementation's). -/
+def repeatedFilePath (line : Str) (gs : List Str) : Option Str :=
   if startsWith line Markers.diffGit then
     let mid := gs.length / 2
     match gs[mid]? with
-    | none => .error "index out of bounds: line[midpoint] (get_repeated_file_path_from_diff_line)"
+    | none => none
     | some g =>
-      if g = [' '] then do
-        let first ← parseFilePath (gs.take mid).flatten true
-        let second ← parseFilePath (gs.drop (mid + 1)).flatten true
-        pure (if first = second then some first else none)
-      else pure none
-  else .ok none
+      if g = [' '] then
+        let first := parseFilePath (gs.take mid).flatten true
+        let second := parseFilePath (gs.drop (mid + 1)).flatten true
+        if first = second then some first else none
+      else none
+  else none
 
 /-- split at every occurrence of `sep` -/
 def splitOn (sep : Char) : Str → List Str
@@ -105,10 +101,10 @@ def digitsVal (ds : Str) : Nat := ds.foldl (fun a c => 10 * a + (c.toNat - 48)) 
 
 def usizeMax : Nat := 2 ^ 64 - 1
 
-/-- `s.parse::<usize>().unwrap()` on a non-empty run of ASCII digits -/
-def parseUsize (ds : Str) : Except String Nat :=
+/-- `s.parse::<usize>().ok()` on a non-empty run of ASCII digits -/
+def parseUsize (ds : Str) : Option Nat :=
   let v := digitsVal ds
-  if v ≤ usizeMax then .ok v else .error "called `Result::unwrap()` on an `Err` value: ParseIntError { kind: PosOverflow }"
+  if v ≤ usizeMax then some v else none
 
 /-- Try `@+ ([^@]+)@+(.*\s?)` anchored at the start of `s`; returns (group 1, group 2). -/
 def matchHunkHeaderAt (s : Str) : Option (Str × Str) :=
@@ -131,36 +127,37 @@ def searchHunkHeader : Str → Option (Str × Str)
     | some r => some r
     | none => searchHunkHeader cs
 
-/-- `captures_iter` of `[-+](\d+)(?:,(\d+))?` over the coordinate text. -/
-def coordinates : Nat → Str → Except String (List (Nat × Nat))
-  | 0, _ => .ok []
-  | _, [] => .ok []
+/-- `captures_iter` of `[-+](\d+)(?:,(\d+))?` over the coordinate text, each number parsed;
+`none` as soon as a number does not fit `usize`. -/
+def coordinates : Nat → Str → Option (List (Nat × Nat))
+  | 0, _ => some []
+  | _, [] => some []
   | fuel + 1, c :: cs =>
     if (c = '-' ∨ c = '+') ∧ (cs.head?.map isDigit = some true) then
       let d1 := cs.takeWhile isDigit
       let r1 := cs.dropWhile isDigit
-      let (d2, r2) : Option Str × Str :=
+      let d2r2 : Option Str × Str :=
         match r1 with
         | ',' :: r =>
           if r.head?.map isDigit = some true then (some (r.takeWhile isDigit), r.dropWhile isDigit)
           else (none, r1)
         | _ => (none, r1)
-      do
-        let a ← parseUsize d1
-        let b ← match d2 with
-          | some d => parseUsize d
-          | none => pure 1
-        let rest ← coordinates fuel r2
-        pure ((a, b) :: rest)
+      match parseUsize d1, (match d2r2.1 with | some d => parseUsize d | none => some 1),
+            coordinates fuel d2r2.2 with
+      | some a, some b, some rest => some ((a, b) :: rest)
+      | _, _, _ => none
     else coordinates fuel cs
 
-/-- `parse_hunk_header` -/
-def parseHunkHeader (line : Str) : Except String (Option HunkHeader) :=
+/-- `parse_hunk_header`: `none` unless the pattern matches, every number fits and there is at
+least one file coordinate. -/
+def parseHunkHeader (line : Str) : Option HunkHeader :=
   match searchHunkHeader line with
-  | none => .ok none
-  | some (coordText, frag) => do
-    let cs ← coordinates (coordText.length + 1) coordText
-    pure (some { fragment := frag, coords := cs })
+  | none => none
+  | some (coordText, frag) =>
+    match coordinates (coordText.length + 1) coordText with
+    | none => none
+    | some [] => none
+    | some (c :: cs) => some { fragment := frag, coords := c :: cs }
 
 -- ---------------------------------------------------------------- header descriptions
 
